@@ -10,8 +10,11 @@ import (
 	"github.com/anishathalye/porcupine"
 	"github.com/openebs/jiva/types"
 
+	"verif/harness/internal/reng"
 	"verif/harness/internal/vk"
 )
+
+var reng_FillSector = reng.FillSector
 
 type regIn struct {
 	Block int
@@ -143,4 +146,204 @@ func RunConcurrent(w *World, idx int) {
 	w.Dead = w.Dead || false
 	_ = types.RW
 	w.CheckSettled("concurrent-clients")
+}
+
+// RunQuorumLossRace: the volume is exactly at quorum, several clients write
+// concurrently, one replica rejects the first write that reaches it. Once that
+// write has returned the volume is read-only; a write that was already queued
+// behind it must be refused without touching any replica (C03).
+func RunQuorumLossRace(w *World, idx int) {
+	r := w.R
+	quorum := w.RF/2 + 1
+	w.Cfg = map[string]interface{}{"rf": w.RF, "rw": quorum, "scenario": "quorum-loss-under-concurrent-writers"}
+	if !w.BringUp(quorum, false) {
+		return
+	}
+	fs, _ := w.Attached()
+	if len(fs) != quorum {
+		return
+	}
+	victim := fs[r.Intn(len(fs))]
+	for _, f := range w.Order {
+		f.Jitter = r.Range(2, 10)
+	}
+	victim.mu.Lock()
+	victim.Next["write"] = ErrNotApplied
+	victim.mu.Unlock()
+	K := r.Range(3, 8)
+	var wg sync.WaitGroup
+	base := w.NextWID
+	w.NextWID += uint32(K * 10)
+	acked := make([]int32, K*10)
+	for g := 0; g < K; g++ {
+		wg.Add(1)
+		go func(g int) {
+			defer wg.Done()
+			for i := 0; i < 2; i++ {
+				id := base + uint32(g*10+i)
+				off := int64((g*2+i)%int(w.Size/4096)) * 4096
+				buf := make([]byte, 512)
+				binary.LittleEndian.PutUint64(buf, uint64(id)<<32)
+				if n, err := w.C.WriteAt(buf, off); err == nil && n == len(buf) {
+					atomic.StoreInt32(&acked[id-base], 1)
+				}
+			}
+		}(g)
+	}
+	wg.Wait()
+	for _, f := range w.Order {
+		f.Jitter = 0
+	}
+	w.NonTrivial = true
+	w.Res.Count("quorum_loss_races", 1)
+	victim.mu.Lock()
+	rej := append([]uint32(nil), victim.Rejected...)
+	victim.mu.Unlock()
+	w.rec(Step{K: "quorum-loss-race", Addr: victim.Addr, Note: fmt.Sprintf("%d clients, rejected write ids %v", K, rej)})
+	if len(rej) == 0 {
+		return
+	}
+	w1 := rej[0]
+	// after w1 returned the volume is below quorum: nothing may reach a replica after w1
+	for _, f := range w.Order {
+		if f == victim {
+			continue
+		}
+		f.mu.Lock()
+		pos := -1
+		var later []uint32
+		for i, e := range f.Log {
+			if e.Kind == "w" && e.ID == w1 {
+				pos = i
+			} else if pos >= 0 && e.Kind == "w" {
+				later = append(later, e.ID)
+			}
+		}
+		f.mu.Unlock()
+		if pos >= 0 && len(later) > 0 {
+			ack := false
+			for _, id := range later {
+				if id >= base && int(id-base) < len(acked) && atomic.LoadInt32(&acked[id-base]) == 1 {
+					ack = true
+				}
+			}
+			w.Fail("C03", fmt.Sprintf("write-reached-replica-after-quorum-loss:acknowledged=%v", ack), fmt.Sprintf("RF=%d with exactly %d RW replicas: write#%d was rejected by %s (quorum lost when it returned), yet writes %v reached %s after it (acknowledged: %v)", w.RF, quorum, w1, victim.Addr, later, f.Addr, ack))
+			return
+		}
+	}
+	for i := range w.Acked {
+		w.Acked[i] = 0
+	}
+	w.CheckSettled("quorum-loss-race")
+}
+
+// RunAddUnderLoad: a writer keeps writing while a replica is added (its own
+// snapshot call is slow), then the rebuild completes; every attached replica
+// must hold every acknowledged write (C02's consequence clause).
+func RunAddUnderLoad(w *World, idx int) {
+	r := w.R
+	quorum := w.RF/2 + 1
+	if w.RF < 2 {
+		RunIO(w, idx)
+		return
+	}
+	nRW := r.Range(quorum, w.RF-1)
+	w.Cfg = map[string]interface{}{"rf": w.RF, "rw": nRW, "scenario": "add-under-write-load"}
+	if !w.BringUp(nRW, false) {
+		return
+	}
+	if st := w.C.VerifState(); st.ReadOnly {
+		return
+	}
+	nf := w.NewFake(1)
+	w.poisonFake(nf)
+	nf.Jitter = r.Range(10, 40) // the joining replica is slow (it opens files, cuts a snapshot)
+	stop := make(chan struct{})
+	var wg sync.WaitGroup
+	wg.Add(1)
+	var mu sync.Mutex
+	type rec struct {
+		off, l int64
+		wid    uint32
+		ack    bool
+	}
+	var recs []rec
+	base := w.NextWID
+	w.NextWID += 5000
+	go func() {
+		defer wg.Done()
+		rr := vk.NewRand(r.U64())
+		id := base
+		for {
+			select {
+			case <-stop:
+				return
+			default:
+			}
+			secs := int(w.Size / 512)
+			o := int64(rr.Intn(secs-8)) * 512
+			l := int64(rr.Range(1, 8)) * 512
+			buf := make([]byte, l)
+			for s := int64(0); s < l/512; s++ {
+				reng_FillSector(buf[s*512:], id, uint32(o/512+s))
+			}
+			n, err := w.C.WriteAt(buf, o)
+			mu.Lock()
+			recs = append(recs, rec{o, l, id, err == nil && int64(n) == l})
+			mu.Unlock()
+			id++
+			if id >= base+4900 {
+				return
+			}
+		}
+	}()
+	time.Sleep(time.Duration(r.Range(0, 3)) * time.Millisecond)
+	w.rec(Step{K: "add-under-load", Addr: nf.Addr})
+	err := w.C.AddReplica(nf.Addr)
+	time.Sleep(time.Duration(r.Range(0, 3)) * time.Millisecond)
+	close(stop)
+	wg.Wait()
+	nf.Jitter = 0
+	w.NonTrivial = true
+	w.Res.Count("adds_under_write_load", 1)
+	// bring the model up to date (the writer was sequential, so order = issue order)
+	for _, x := range recs {
+		for s := x.off / 512; s < (x.off+x.l)/512; s++ {
+			if x.ack {
+				w.Acked[s] = x.wid
+				delete(w.Maybe, s)
+			} else {
+				w.Maybe[s] = append(w.Maybe[s], x.wid)
+			}
+		}
+		if x.ack {
+			w.AckLog = append(w.AckLog, x.wid)
+		}
+	}
+	w.Res.Count("io_write", int64(len(recs)))
+	// which of these writes the new replica had to receive itself is not known (it joined somewhere in between);
+	// what it must hold is decided on its data after the sync
+	w.noteAttach()
+	if err != nil {
+		return
+	}
+	w.CheckSettled("add-under-load")
+	if w.Dead {
+		return
+	}
+	if w.SyncFrom(nf) {
+		if err := w.Verify(nf); err != nil {
+			w.Fail("C18", "verify-refused", err.Error())
+			return
+		}
+		w.CheckSettled("verify")
+		w.CheckImages()
+		if !w.Dead {
+			w.readSweep()
+			st := w.C.VerifState()
+			for i := 0; i < len(st.Readers) && !w.Dead; i++ {
+				w.IO("read", 0, w.Size, nil)
+			}
+		}
+	}
 }
